@@ -26,11 +26,11 @@ Definition gen_utcnow (v_with_timezone : bool) : M dt :=
            | Many [] | NoOv => real_now v_with_timezone w
            end.
 
-Definition gen_is_older_than (v_before : targ) (v_seconds : Z) : M bool :=
-  (match v_before with TStr v_before => (bindM (gen_parse_isotime v_before) (fun v_before => (bindM (gen_normalize_time v_before) (fun v_before => (bindM (bindM (gen_utcnow false) (fun t1_ => (lift (dt_sub t1_ v_before)))) (fun t2_ => (ret (z_cmp CGt t2_ (td_of_seconds v_seconds))))))))) | TDt v_before => (bindM (gen_normalize_time v_before) (fun v_before => (bindM (bindM (gen_utcnow false) (fun t3_ => (lift (dt_sub t3_ v_before)))) (fun t4_ => (ret (z_cmp CGt t4_ (td_of_seconds v_seconds))))))) end).
+Definition gen_is_older_than (v_before : targ) (v_seconds : pynum) : M bool :=
+  (match v_before with TStr v_before => (bindM (gen_parse_isotime v_before) (fun v_before => (bindM (gen_normalize_time v_before) (fun v_before => (bindM (bindM (gen_utcnow false) (fun t1_ => (lift (dt_sub t1_ v_before)))) (fun t2_ => (bindM (lift (td_of_seconds v_seconds)) (fun t3_ => (ret (z_cmp CGt t2_ t3_)))))))))) | TDt v_before => (bindM (gen_normalize_time v_before) (fun v_before => (bindM (bindM (gen_utcnow false) (fun t4_ => (lift (dt_sub t4_ v_before)))) (fun t5_ => (bindM (lift (td_of_seconds v_seconds)) (fun t6_ => (ret (z_cmp CGt t5_ t6_)))))))) end).
 
-Definition gen_is_newer_than (v_after : targ) (v_seconds : Z) : M bool :=
-  (match v_after with TStr v_after => (bindM (gen_parse_isotime v_after) (fun v_after => (bindM (gen_normalize_time v_after) (fun v_after => (bindM (bindM (gen_utcnow false) (fun t1_ => (lift (dt_sub v_after t1_)))) (fun t2_ => (ret (z_cmp CGt t2_ (td_of_seconds v_seconds))))))))) | TDt v_after => (bindM (gen_normalize_time v_after) (fun v_after => (bindM (bindM (gen_utcnow false) (fun t3_ => (lift (dt_sub v_after t3_)))) (fun t4_ => (ret (z_cmp CGt t4_ (td_of_seconds v_seconds))))))) end).
+Definition gen_is_newer_than (v_after : targ) (v_seconds : pynum) : M bool :=
+  (match v_after with TStr v_after => (bindM (gen_parse_isotime v_after) (fun v_after => (bindM (gen_normalize_time v_after) (fun v_after => (bindM (bindM (gen_utcnow false) (fun t1_ => (lift (dt_sub v_after t1_)))) (fun t2_ => (bindM (lift (td_of_seconds v_seconds)) (fun t3_ => (ret (z_cmp CGt t2_ t3_)))))))))) | TDt v_after => (bindM (gen_normalize_time v_after) (fun v_after => (bindM (bindM (gen_utcnow false) (fun t4_ => (lift (dt_sub v_after t4_)))) (fun t5_ => (bindM (lift (td_of_seconds v_seconds)) (fun t6_ => (ret (z_cmp CGt t5_ t6_)))))))) end).
 
 Definition gen_utcnow_ts (v_microsecond : bool) : M fexp :=
   (bindM (bindM get_ov (fun t1_ => (ret (ov_is_none t1_)))) (fun t2_ => if t2_ then (let v_timestamp := FTime in (if (negb v_microsecond) then (let v_timestamp := (FTrunc v_timestamp) in (ret v_timestamp)) else (ret v_timestamp))) else (bindM (gen_utcnow false) (fun v_now => (let v_timestamp := (timegm_of v_now) in (if v_microsecond then (let v_timestamp := (FAdd (FInt v_timestamp) (FDiv (FInt (dt_microsecond v_now)) (FInt (1000000)))) in (ret v_timestamp)) else (ret (FInt v_timestamp)))))))).
@@ -55,8 +55,8 @@ Definition gen_advance_time_delta (v_timedelta : Z) : M unit :=
                       end
            end.
 
-Definition gen_advance_time_seconds (v_seconds : Z) : M unit :=
-  (bindM (gen_advance_time_delta (td_of_days_seconds (0) v_seconds)) (fun _ => (ret tt))).
+Definition gen_advance_time_seconds (v_seconds : pynum) : M unit :=
+  (bindM (bindM (lift (td_of_days_seconds (0) v_seconds)) (fun t1_ => (gen_advance_time_delta t1_))) (fun _ => (ret tt))).
 
 Definition gen_clear_time_override : M unit :=
   (bindM (put_ov NoOv) (fun _ => (ret tt))).
@@ -70,5 +70,12 @@ Definition gen_unmarshall_time (v_tyme : mrec) : M dt :=
 Definition gen_delta_seconds (v_before : dt) (v_after : dt) : M fexp :=
   (bindM (lift (dt_sub v_after v_before)) (fun v_delta => (ret (td_total_seconds v_delta)))).
 
-Definition gen_is_soon (v_dt : targ) (v_window : Z) : M bool :=
-  (match v_dt with TStr v_dt => (bindM (gen_parse_isotime v_dt) (fun v_dt => (bindM (bindM (gen_utcnow false) (fun t1_ => (lift (dt_add_td t1_ (td_of_seconds v_window))))) (fun v_soon => (bindM (gen_normalize_time v_dt) (fun t2_ => (lift (dt_cmp CLe t2_ v_soon)))))))) | TDt v_dt => (bindM (bindM (gen_utcnow false) (fun t3_ => (lift (dt_add_td t3_ (td_of_seconds v_window))))) (fun v_soon => (bindM (gen_normalize_time v_dt) (fun t4_ => (lift (dt_cmp CLe t4_ v_soon)))))) end).
+Definition gen_is_soon (v_dt : targ) (v_window : pynum) : M bool :=
+  (match v_dt with TStr v_dt => (bindM (gen_parse_isotime v_dt) (fun v_dt => (bindM (bindM (gen_utcnow false) (fun t1_ => (bindM (lift (td_of_seconds v_window)) (fun t2_ => (lift (dt_add_td t1_ t2_)))))) (fun v_soon => (bindM (gen_normalize_time v_dt) (fun t3_ => (lift (dt_cmp CLe t3_ v_soon)))))))) | TDt v_dt => (bindM (bindM (gen_utcnow false) (fun t4_ => (bindM (lift (td_of_seconds v_window)) (fun t5_ => (lift (dt_add_td t4_ t5_)))))) (fun v_soon => (bindM (gen_normalize_time v_dt) (fun t6_ => (lift (dt_cmp CLe t6_ v_soon)))))) end).
+
+(* oslo_utils.fixture.TimeFixture: setUp = set_time_override(the constructor argument) + clear_time_override registered as
+   clean-up; the advance methods call the module functions (the fixture keeps no instant of its own) *)
+Definition gen_fixture_setUp (v_override_time : override) : M unit := gen_set_time_override v_override_time.
+Definition gen_fixture_cleanUp : M unit := gen_clear_time_override.
+Definition gen_fixture_advance_time_delta (v_timedelta : Z) : M unit := gen_advance_time_delta v_timedelta.
+Definition gen_fixture_advance_time_seconds (v_seconds : pynum) : M unit := gen_advance_time_seconds v_seconds.
